@@ -120,6 +120,8 @@ func (s inputSpec) build() []byte {
 		for i := range b {
 			b[i] = byte('a' + i%7)
 		}
+	case "text":
+		copy(b, srcSpec{Fam: "S4", Len: s.Len, Content: "text"}.build(nil))
 	case "lcg":
 		lcgFill(b, uint64(s.Len)+99)
 	case "zerosum":
